@@ -676,10 +676,14 @@ void __redu_lcd_progress(
   if (cols <= 0) {
     return;
   }
-  if (width <= 0 || width > cols) {
+  if (width > cols) {
     width = cols;
   }
+  if (width < 1) {
+    width = 1;
+  }
   if (max_value <= 0) {
+    value = 0;
     max_value = 1;
   }
   if (value < 0) {
@@ -1399,9 +1403,11 @@ def _emit_block(
                     f"{indent}__redu_lcd_write_aligned({info['object']}, {info['cols_var']}, 0, 0, {_string_expr(node.top)}, {clear_expr}, {_align_enum(node.top_align)});"
                 )
             if node.bottom is not None:
+                lines.append(f"{indent}if ({info['rows_var']} > 1) {{")
                 lines.append(
-                    f"{indent}__redu_lcd_write_aligned({info['object']}, {info['cols_var']}, 0, 1, {_string_expr(node.bottom)}, {clear_expr}, {_align_enum(node.bottom_align)});"
+                    f"{indent}  __redu_lcd_write_aligned({info['object']}, {info['cols_var']}, 0, 1, {_string_expr(node.bottom)}, {clear_expr}, {_align_enum(node.bottom_align)});"
                 )
+                lines.append(f"{indent}}}")
             continue
 
         if isinstance(node, LCDClear):
